@@ -7,7 +7,7 @@ for p in sorted(glob.glob('/verif/seeded/*/meta.json')):
     caught='; '.join('**%s** `%s`'%(c,s) for c,s in v.get('caught_by',{}).items()) or '**not caught** (see below)'
     rows.append((name,m.get('property',''),', '.join(m.get('files',[])),m.get('summary','').split('. ')[0][:260],m.get('needs','')[:260],caught,('yes, still' if v.get('not_caught') else 'yes → strengthened') if v.get('initially_missed') else 'no',v.get('strengthened','') or v.get('not_caught','')))
 out=[]
-out.append("Each seeded change was produced by a fresh sub-agent that saw only the property text and a scratch worktree of /repo (nothing from /verif), asked for a realistic defect that compiles, keeps the pinned suite green (`missing=0` against `stable_pass`) and needs something specific to manifest. I re-ran the suite on each worktree, applied the patch to /repo's working tree (`tools/try_seeded.sh`, which always reverts), ran the quick tier of the property's check (and of neighbouring checks where relevant) and kept patch, the agent's demonstration and the verdicts under `/verif/seeded/<id>/`. No change is committed in /repo.\n")
+out.append("Each seeded change was produced by a fresh sub-agent that saw only the property text and a scratch worktree of /repo (nothing from /verif), asked for a realistic defect that compiles, keeps the pinned suite green (`missing=0` against `stable_pass`) and needs something specific to manifest. I re-ran the suite on each worktree, applied the patch to /repo's working tree (`tools/try_seeded.sh`, which always reverts), ran the quick tier of the property's check (and of neighbouring checks where relevant) and kept patch, the agent's demonstration and the verdicts under `/verif/seeded/<id>/`. No change is committed in /repo. Round six (ids ending in -f) was first tried in parallel with `tools/try_seeded_wt.sh` (a scratch copy of /verif built against the scratch worktree that carries the change) and then confirmed once more through `tools/try_seeded.sh` on /repo's working tree.\n")
 out.append("| id | files | change (first sentence) | needs | caught by (signature) | missed at first? |\n|---|---|---|---|---|---|")
 for r in rows:
     out.append("| %s | `%s` | %s | %s | %s | %s |"%(r[0],r[2],r[3].replace('|','\\|'),r[4].replace('|','\\|'),r[5],r[6]))
